@@ -220,6 +220,9 @@ def run_case(case):
             spec["trainable"] = True
         nodes, sup, cg = C.generated_graph(spec, ts_max=rnd.choice([0.6, 1.0]), num_episodes=rnd.choice([2, 3]), seed=case["spec_seed"])
         src = dict(kind="gen")
+        if rnd.random() < 0.25:  # a single, un-batched episode (1-D arrays): Graph() must treat it as a stack of one
+            cg = jax.tree_util.tree_map(lambda x: x[0], cg)
+            src["unbatched"] = True
     dg = S.digest(spec)
     pairs = rnd.sample([(m, p) for m in ("mcs", "gen", "top") for p in (True, False)], 2)
     if spec.get("fast_ratio"):
@@ -231,6 +234,8 @@ def run_case(case):
         if mode == "mcs" and S_prev is None and rnd.random() < 0.5:
             # user-supplied initial supergraph: compiled for a different episode set (first episode only)
             try:
+                if src.get("unbatched"):
+                    raise C.Rejected("unbatched")
                 G0 = C.build_compiled(nodes, sup, jax.tree_util.tree_map(lambda x: x[:1], cg), mode="mcs", prune=prune)
                 kw["S_init"] = G0.S
                 s_init = True
